@@ -31,6 +31,7 @@ FormErr(f) ==
   ELSE IF f.fileable /\ "sequence_no" \notin SeqToSet(f.meta) THEN "can require filing but has no attachment sequence number"
   ELSE IF ~NoDup(f.inputs) THEN "duplicate input name"
   ELSE IF ~NoDup(f.lines) THEN "duplicate line name"
+  ELSE IF f.foreign # <<>> THEN "with all instances alive, a line or input of this one answers to another name: " \o ToString(f.foreign)
   ELSE IF \E n \in SeqToSet(f.badcase) : TRUE THEN "input or line name not lower-case / contains a dot: " \o ToString(f.badcase)
   ELSE IF ~f.in_list_forms THEN "not printed by list-forms"
   ELSE IF ~f.list_ok THEN "list-form-inputs output does not parse as an input file"
